@@ -14,6 +14,7 @@ import PoetryVerif.Proofs.MarkerAlgSoundFullC
 import PoetryVerif.Proofs.MarkerPrint4
 import PoetryVerif.Proofs.MarkerPrintCharsQ
 import PoetryVerif.Proofs.MarkerPrint4L
+import PoetryVerif.Proofs.MarkerPrint4LL
 import PoetryVerif.Proofs.PyConvPairFinal
 import PoetryVerif.Proofs.PyConvPairCompat
 
@@ -412,6 +413,33 @@ theorem print_parse_lists_pfv {C : String → Prop}
       M.parseText_toStr S (printOK_fullQLP hX) (fun l hl => lexable_fullQLP l hl) hg h
     refine ⟨s, h1, h2, m', h3, h4, ?_⟩
     rw [M.validate_eq_sem E m' (M.good_mono (fun l hl => fullQLP_evaluable hX hE hl) m' h4)]
+    exact congrArg _ h5
+  · cases isUnion
+    · simp only [Bool.false_eq_true, if_false] at hr ⊢
+      exact mIntersect_sound S ha hb hr
+    · simp only [if_true] at hr ⊢
+      exact mUnion_sound S ha hb hr
+
+/-- **Marker text with lists on BOTH python variables, no hypothesis**: as `print_parse_lists_pfv`, on markers that
+may also hold `python_full_version in "…"` / `not in "…"` leaves on lists of two- and three-component versions
+(the pairing is `pairSound_pyLL`). -/
+theorem print_parse_lists_both {C : String → Prop}
+    (hC : ∀ u v, C u → C v → Generic.strIn u v = true ∨ Generic.strIn v u = true)
+    {ex : List String} (hX : E.extras = some ex) {X Y Z : Nat} (hE : EnvPy E X Y Z) :
+    (∀ {m : M} {t : Syn}, M.Good (FullQLL C E) m → M.toSyn m = some t →
+      ∃ s, M.toStr m = .ok s ∧ parseText s = .ok t ∧
+        ∃ m', compactRaw t = .ok m' ∧ M.Good (FullQLL C E) m' ∧ M.validate E m' = .ok (M.sem (leafEval E) m)) ∧
+    (∀ {a b r : M} {isUnion : Bool}, M.Good (FullQLL C E) a → M.Good (FullQLL C E) b →
+      (if isUnion then mUnion fuel stk a b else mIntersect fuel stk a b) = .ok r →
+      M.Good (FullQLL C E) r ∧ M.sem (leafEval E) r =
+        (if isUnion then (M.sem (leafEval E) a || M.sem (leafEval E) b)
+          else (M.sem (leafEval E) a && M.sem (leafEval E) b))) := by
+  have S := leafSpec_fullQLL hC hX hE
+  refine ⟨fun {m t} hg h => ?_, fun {a b r isUnion} ha hb hr => ?_⟩
+  · obtain ⟨s, h1, h2, m', h3, h4, h5⟩ :=
+      M.parseText_toStr S (printOK_fullQLL hX) (fun l hl => lexable_fullQLL l hl) hg h
+    refine ⟨s, h1, h2, m', h3, h4, ?_⟩
+    rw [M.validate_eq_sem E m' (M.good_mono (fun l hl => fullQLL_evaluable hX hE hl) m' h4)]
     exact congrArg _ h5
   · cases isUnion
     · simp only [Bool.false_eq_true, if_false] at hr ⊢
